@@ -1770,6 +1770,32 @@ def _merge_states(states, base_len):
             for c, x in zip(reversed(conds[:-1]), reversed(asgs[:-1])):
                 a = z3.If(c, x, a)
             out.asg[n] = z3.simplify(a)
+    # captured call arguments (arg_of): `out.ghost` starts as the first state's, which would let a
+    # clause about arg_of(...) after the merge see the first branch's call only.  A value that is
+    # not the same on every branch is ite-merged under the branch conditions; on a branch that
+    # never made the call it is an arbitrary value of its own, so nothing can be proved of it there
+    akeys = set()
+    for s in states:
+        akeys |= {k for k in s.ghost if isinstance(k, str) and k.startswith('__arg__')}
+    for k in akeys:
+        vals = [s.ghost.get(k) for s in states]
+        if all(v is vals[0] for v in vals):
+            continue
+        donor = next(v for v in vals if v is not None)
+        try:
+            ty = donor.ty
+            for v in vals:
+                if v is not None:
+                    ty = join_types(ty, v.ty)
+                    if ty is None:
+                        raise Unsupported('arg types')
+            vals = [coerce(v, ty) if v is not None else fresh(ty, 'no_such_argument') for v in vals]
+            term = vals[-1].term
+            for c, v in zip(reversed(conds[:-1]), reversed(vals[:-1])):
+                term = z3.If(c, v.term, term)
+            out.ghost[k] = SymVal(ty, term)
+        except Exception:
+            out.ghost[k] = fresh(T.OPAQUE, 'no_such_argument')
     return out
 
 
